@@ -461,6 +461,8 @@ fn check_issue(cx: &Ctx, entry: &str, ov: &str, is: &Issue, x: &Exp) {
         "struct-alias" => "use_site_ok/struct-alias",
         "list-alias" => "use_site_ok/list-alias",
         "merge" => "use_site_ok/merge",
+        "repeated-key-direct" => "use_site_ok/repeated-key-direct",
+        "repeated-key-alias" => "use_site_ok/repeated-key-alias",
         _ => "use_site_ok/unknown-arrival",
     });
     match &is.def {
@@ -491,6 +493,7 @@ fn check_issue(cx: &Ctx, entry: &str, ov: &str, is: &Issue, x: &Exp) {
                     "struct-alias" => "def_site_ok/struct-alias",
                     "list-alias" => "def_site_ok/list-alias",
                     "merge" => "def_site_ok/merge",
+                    "repeated-key-alias" => "def_site_ok/repeated-key-alias",
                     _ => "def_site_ok/other",
                 });
             }
